@@ -11,14 +11,16 @@ MANIFEST = dict(
          "table: Sound (right key incl. argument types and receiver instance, never older than the expiration), "
          "Complete (action property: no invocation when the key is among the `limit` most recently used and "
          "unexpired), Capacity. TLC checks all histories within the bounds; every edge is replayed into the real "
-         "decorator (keys 1 / 1.0 / True / x=1, ==-equal receivers) and a Drain edge from EVERY state calls every key "
+         "decorator (keys -1 / -1.0 / -2 / x=-1 / True / 1: ==-equal of different types, unequal with equal hashes; ==-equal receivers) and a Drain edge from EVERY state calls every key "
          "once more so that hidden LRU order / expiry / eviction state is compared too.",
     technique="TLA+ spec + TLC exhaustive model checking (history-based invariants and action property); edge-complete "
               "graph replay into the implementation in exact virtual time",
     design="5/C12")
 INVS = ["TypeOK", "Capacity", "NoDuplicateKeys", "Sound"]
 T0 = 1000.0
-ARGS = {1: ((1,), {}), 2: ((1.0,), {}), 3: ((True,), {}), 4: ((), {"x": 1}), 5: ((2,), {})}
+# the key alphabet: ==-equal arguments of different types (-1 / -1.0, True / 1), positional against keyword, and UNEQUAL
+# arguments of one type with EQUAL hashes (hash(-1) == hash(-2) in CPython): a key is matched by equality, not by hash
+ARGS = {1: ((-1,), {}), 2: ((-1.0,), {}), 3: ((-2,), {}), 4: ((), {"x": -1}), 5: ((True,), {}), 6: ((1,), {})}
 
 
 class Val:
@@ -197,10 +199,10 @@ def gen_trace(rnd, length):
     form = rnd.choice(ALL_FORMS)
     limit = rnd.choice([1, 2, 2, 3, 4])
     expn = rnd.choice([0, 2, 3, 5])
-    d = factory(5, 3)()
+    d = factory(6, 3)()
     d.reset(dict(form=form, limit=limit, expn=expn))
     tr = [dict(ev="Init", init=dict(form=form, limit=limit, expn=expn))]
-    nkeys = rnd.choice([2, 3, 5])
+    nkeys = rnd.choice([2, 3, 6])
     try:
         for _ in range(length):
             if form.endswith("method") and rnd.random() < 0.08:
@@ -295,13 +297,14 @@ def run(rep, work, tier, seed):
     leg_t_gen(rep, work, SPEC, f"trace_{tier}", traces,
               variables=["form", "limit", "expn", "now", "entries", "ninv", "invKey", "invAt", "invOut", "uses", "rid", "nrid",
                          "nren", "nops", "drained", "obs"],
-              constants=dict(NKeys=5, NRecv=3, Forms='{"sync_fn", "sync_method", "async_fn", "async_method"}', Limits="1..4",
+              constants=dict(NKeys=6, NRecv=3, Forms='{"sync_fn", "sync_method", "async_fn", "async_method"}', Limits="1..4",
                              Expirations="{0, 2, 3, 5}", MaxT=100000, MaxOps=100000, Outs='{"val", "exc"}',
                              Steps="1..3", MaxRenew=100000, Bug='"none"'),
               config_vars=["form", "limit", "expn"], actions=dict(Call=3, Advance=1, Renew=1, Drain=0),
               invariants=["Capacity", "NoDuplicateKeys", "Sound"])
     rep.assumptions += [
-        "key alphabet f(1), f(1.0), f(True), f(x=1), f(2) (==-equal, differently typed / positional vs keyword); method "
+        "key alphabet f(-1), f(-1.0), f(-2), f(x=-1), f(True), f(1) (==-equal but differently typed, positional vs keyword, "
+        "unequal with equal hashes); method "
         "receivers are ==-equal, hash-equal, distinct instances",
         "exact integer virtual time; expiration=0 means 'never expires' in haiway and is modelled so",
         "async forms here are awaited one call at a time (concurrency is C13); the async form caches failed invocations, "
@@ -325,7 +328,7 @@ def replay(rep, record):
     if record.get("spec") == "CacheFlight":
         from props.c13 import replay as r13
         return r13(rep, record)
-    d = factory(5, 3)()
+    d = factory(6, 3)()
     d.reset(record["init"])
     d.nkeys = record.get("nkeys", 3)
     print("  config:", {k: record["init"][k] for k in ("form", "limit", "expn")})
